@@ -351,6 +351,9 @@ def readKind {χ} (c : Ctx χ) (d : KV) : Kind → Json → Res (Val χ)
     | _, .error e => .error e
   | .intPair, _ => .error .typeError
 
+/-- `Reaction.to_string` skips the species whose stored coefficient is 0 -/
+def nz (l : List (String × Int)) : List (String × Int) := l.filter fun p => p.2 != 0
+
 /-- write one value (`format_unitvar_for_save`, `str(UnitValue)`, `unitarray_to_dict`, …) -/
 def writeVal {χ} (wc : χ → Json) : Val χ → Json
   | .none => .null
@@ -364,7 +367,7 @@ def writeVal {χ} (wc : χ → Json) : Val χ → Json
   | .ints l => .arr (l.map fun (n : Int) => .num (n : Rat))
   | .strs l => .arr (l.map .str)
   | .sys s => sysToJson s
-  | .stoich s p => .eqn s p
+  | .stoich s p => .eqn (nz s) (nz p)
   | .child c => wc c
   | .children l => .arr (l.map wc)
 
